@@ -49,6 +49,8 @@ type c21Case struct {
 //	ops#N                  peer STREAM on the peer-initiated other-type stream N
 //	acc                    AcceptStream with a cancelled ctx
 //	close:I                Close() of the I-th accepted stream
+//	cread:I / cwrite:I     CloseRead() / CloseWrite() of the I-th accepted stream (cwrite: bidi only): the application
+//	                       gives up one half only; it has closed the stream once it gave up every half it has
 //	ack                    peer acknowledges every packet sent so far
 //	lclose:I               Close() of the I-th locally opened stream
 //	lpf:I                  peer STREAM+FIN on the I-th locally opened stream (bidi)
@@ -83,6 +85,8 @@ type c21Run struct {
 	sendDone  [streamTypeCount]map[int64]bool // the conn's FIN / RESET_STREAM for the stream was acknowledged
 	delivered map[streamID]bool
 	accepted  []*Stream
+	appRead   map[streamID]bool // the application called CloseRead / Close on the (accepted) peer stream
+	appWrite  map[streamID]bool // the application called CloseWrite / Close on it
 	nMaxSent  int
 	expClosed bool
 }
@@ -91,6 +95,26 @@ func (r *c21Run) closable(t streamType) int64 {
 	var n int64
 	for num := range r.finKnown[t] {
 		if t == uniStream || r.sendDone[t][num] {
+			n++
+		}
+	}
+	return n
+}
+
+// released says whether the local application has closed the peer stream
+// (every half it has: Close, or CloseRead and - bidi - CloseWrite). A stream
+// it never accepted is not closed.
+func (r *c21Run) released(t streamType, num int64) bool {
+	id := r.peerID(t, num)
+	return r.appRead[id] && (t == uniStream || r.appWrite[id])
+}
+
+// closableReleased counts the peer streams that are finished on the wire (as
+// in closable) and that the local application has closed as well.
+func (r *c21Run) closableReleased(t streamType) int64 {
+	var n int64
+	for num := range r.finKnown[t] {
+		if (t == uniStream || r.sendDone[t][num]) && r.released(t, num) {
 			n++
 		}
 	}
@@ -147,6 +171,15 @@ func (r *c21Run) observe(after string) {
 	for _, t := range []streamType{bidiStream, uniStream} {
 		if open := r.adv[t] - r.closable(t); open > r.maxRemote[t] {
 			w.Failf("C21/peer-may-hold-more-than-configured/"+t.String(), "after %s: conn advertised MAX_STREAMS %d for %v streams while only %d peer streams are finished (final size known and, for bidi, the conn's FIN/RESET acknowledged): the peer may hold %d open streams, configured maximum %d; cfg=%+v", after, r.adv[t], t, r.closable(t), open, r.maxRemote[t], r.cfg)
+			return
+		}
+	}
+	// The same bound with the streams the local application still holds counted as open: a peer stream that
+	// is finished on the wire (e.g. reset by the peer) but not yet closed by the application on this side
+	// still occupies one of the configured slots.
+	for _, t := range []streamType{bidiStream, uniStream} {
+		if open := r.adv[t] - r.closableReleased(t); open > r.maxRemote[t] {
+			w.Failf("C21/peer-may-hold-more-than-configured/stream-not-closed-by-application/"+t.String(), "after %s: conn advertised MAX_STREAMS %d for %v streams while only %d peer streams are both finished on the wire and closed by the local application (%d are finished on the wire): %d peer streams may be open or still held by the application at once, configured maximum %d; cfg=%+v", after, r.adv[t], t, r.closableReleased(t), r.closable(t), open, r.maxRemote[t], r.cfg)
 			return
 		}
 	}
@@ -361,6 +394,25 @@ func (r *c21Run) step(op string) bool {
 			return false
 		}
 		l[i].Close()
+		if name == "close" {
+			r.appRead[l[i].id], r.appWrite[l[i].id] = true, true
+		}
+	case name == "cread" || name == "cwrite":
+		i, _ := strconv.Atoi(arg)
+		if i >= len(r.accepted) {
+			return false
+		}
+		s := r.accepted[i]
+		if name == "cread" {
+			s.CloseRead()
+			r.appRead[s.id] = true
+		} else {
+			if s.IsReadOnly() {
+				return false // a receive-only stream has no send half to close
+			}
+			s.CloseWrite()
+			r.appWrite[s.id] = true
+		}
 	case name == "lreset":
 		i, _ := strconv.Atoi(arg)
 		if i >= len(r.locals) {
@@ -468,7 +520,7 @@ func (r *c21Run) step(op string) bool {
 
 func c21Exec(c *vx.Ctx, w *vx.W, cs c21Case) {
 	qpeerBubble(c, w, "C21", func(t *testing.T) {
-		r := &c21Run{w: w, cfg: cs.Cfg, side: qpeerSide(cs.Cfg.Side), ft: qpeerStype(cs.Cfg.Styp), delivered: map[streamID]bool{}}
+		r := &c21Run{w: w, cfg: cs.Cfg, side: qpeerSide(cs.Cfg.Side), ft: qpeerStype(cs.Cfg.Styp), delivered: map[streamID]bool{}, appRead: map[streamID]bool{}, appWrite: map[streamID]bool{}}
 		r.ot = bidiStream + uniStream - r.ft
 		r.maxRemote[r.ft], r.maxRemote[r.ot] = cs.Cfg.MaxRemote, c21OtherMaxRemote
 		r.lmax[r.ft], r.lmax[r.ot] = cs.Cfg.PeerInit, c21OtherPeerInit
@@ -537,6 +589,7 @@ type c21Gen struct {
 	framed   map[int64]bool // focus-type peer streams known to have received a frame
 	framedX  int            // further streams that may have received one (unresolved targets, other type)
 	closed   map[int]bool
+	halves   map[string]bool // cread:I / cwrite:I already applied
 	nClose   int
 	locals   int
 	lclosed  map[int]bool
@@ -548,7 +601,10 @@ type c21Gen struct {
 
 func (g *c21Gen) clone() *c21Gen {
 	n := *g
-	n.closed, n.lclosed, n.framed = map[int]bool{}, map[int]bool{}, map[int64]bool{}
+	n.closed, n.lclosed, n.framed, n.halves = map[int]bool{}, map[int]bool{}, map[int64]bool{}, map[string]bool{}
+	for k := range g.halves {
+		n.halves[k] = true
+	}
 	for k := range g.closed {
 		n.closed[k] = true
 	}
@@ -593,6 +649,9 @@ func (g *c21Gen) enabled(op string) bool {
 	case name == "close":
 		i, _ := strconv.Atoi(arg)
 		return i < g.accepted && !g.closed[i]
+	case name == "cread" || name == "cwrite":
+		i, _ := strconv.Atoi(arg)
+		return i < g.accepted && !g.closed[i] && !g.halves[op] && (name == "cread" || g.cfg.Styp == "bidi")
 	case name == "lclose" || name == "lreset":
 		i, _ := strconv.Atoi(arg)
 		return i < g.locals && !g.lclosed[i]
@@ -625,6 +684,14 @@ func (g *c21Gen) apply(op string) {
 	case name == "close":
 		i, _ := strconv.Atoi(arg)
 		g.closed[i] = true
+		g.nClose++
+	case name == "cread" || name == "cwrite":
+		// closing a half may finish the stream: from here on the advertised limit is not predicted
+		// (nClose is an upper bound of the streams the conn may count as closed)
+		g.halves[op] = true
+		if i, _ := strconv.Atoi(arg); g.halves[fmt.Sprintf("cread:%d", i)] && (g.cfg.Styp != "bidi" || g.halves[fmt.Sprintf("cwrite:%d", i)]) {
+			g.closed[i] = true
+		}
 		g.nClose++
 	case name == "lclose" || name == "lreset":
 		i, _ := strconv.Atoi(arg)
@@ -682,7 +749,7 @@ func c21Enumerate(cfg c21Cfg, seed []string, ops []string, depth int, yield func
 	for _, o := range ops {
 		opset[o] = true
 	}
-	root := &c21Gen{cfg: cfg, ops: opset, closed: map[int]bool{}, lclosed: map[int]bool{}, framed: map[int64]bool{}, lmaxPred: cfg.PeerInit}
+	root := &c21Gen{cfg: cfg, ops: opset, closed: map[int]bool{}, halves: map[string]bool{}, lclosed: map[int]bool{}, framed: map[int64]bool{}, lmaxPred: cfg.PeerInit}
 	for _, op := range seed {
 		root.apply(op)
 	}
@@ -867,6 +934,12 @@ func c21SeedPeerClosed(k int) func(cfg c21Cfg) [][]string {
 	}
 }
 
+// c21SeedHeld: the peer has opened its stream 0 and the local application has
+// accepted it (and holds it, with both halves open).
+func c21SeedHeld(cfg c21Cfg) [][]string {
+	return [][]string{{"ps#0", "acc"}}
+}
+
 func c21Parts(c *vx.Ctx) []c21Part {
 	sides := vx.Pick(c, []string{"server"}, []string{"server", "client"})
 	types := []string{"bidi", "uni"}
@@ -930,6 +1003,12 @@ func c21Parts(c *vx.Ctx) []c21Part {
 		// finishing local streams must not extend the peer's limit
 		{"mixed", cfgs([]int64{1}, []int64{1}),
 			[]string{"new", "lclose:0", "lpf:0", "ack", "pf#0", "acc", "close:0", "ps@0", "ps@-1", "max:1"}, vx.Pick(c, 5, 6), nil},
+		// a peer stream ends on the wire (FIN / RESET_STREAM from the peer, the conn's own FIN acknowledged)
+		// BEFORE, between or after the application's CloseRead / CloseWrite / Close of it, in every order,
+		// with the peer at / one below a small limit: the slot is the peer's again only once both happened
+		{"remote-held", cfgs([]int64{1, 2}, []int64{1}),
+			[]string{"pr#0", "pf#0", "cread:0", "cwrite:0", "close:0", "ack", "ps@-1", "pr@-1", "ps@0", "acc"},
+			vx.Pick(c, 4, 5), c21SeedHeld},
 		extra[2], extra[3], extra[0], // remote-batched-closed-2, -3, remote-batched
 		// deeper histories of peer-created streams
 		{"remote-0-2-3", cfgs([]int64{0, 2, 3}, []int64{1}), remote, vx.Pick(c, 4, 6), nil},
@@ -955,8 +1034,9 @@ func c21Parts(c *vx.Ctx) []c21Part {
 
 func TestVerif_C21(t *testing.T) {
 	vx.Run(t, "C21", func(c *vx.Ctx) {
-		c.Rule("q-peer: for every configuration (conn side, stream type in focus, configured Max*RemoteStreams 0..3 and, in the remote-batched* parts, {9, 20, 120} quick / {8, 9, 16, 20, 100, 101, 120} thorough, peer initial_max_streams 0..2) every sequence of enabled operations up to the depth of the part, shortest first, each on a fresh handshaken Conn in its own synctest bubble; operations: local NewStream with cancelled / live context, peer MAX_STREAMS (any order, stale values), peer STREAM/FIN/RESET_STREAM/MAX_STREAM_DATA/STOP_SENDING on stream numbers {0,1,2,limit-1,limit,limit+5}, AcceptStream, Close of accepted/local streams, Reset+CloseRead of local streams, ACK of everything sent, and peer STREAM/FIN/RESET_STREAM/MAX_STREAM_DATA/STOP_SENDING addressed to the conn's OWN stream numbers {0,1,2} in every life-cycle state (open, half closed, completely closed and forgotten, never opened) with the conn exactly at / one below the peer's limit; a monitor reads every frame the conn sends after every step. The parts local-kinds / local-late / local-late-2 enumerate behind fixed prefixes (not counted in the depth): local-kinds behind each of {n opens, n = limit and limit-1} x {peer FIN, Close, ACK | Reset+CloseRead, peer RESET_STREAM, ACK} with the precondition that the conn has forgotten stream 0 (checked on the real conn; it held in every case or the outcome prefix:local-stream-not-forgotten is listed); local-late* behind 'limit' opens, so that the closing steps themselves are explored in every order interleaved with late frames and further opens. The remote-batched* parts use configured limits large enough that the conn may withhold a MAX_STREAMS update after peer streams finished (8 | 9: either side of 'fewer than 8 numbers left' with one stream opened; 100 | 101, 120: at and beyond the cap of the initial limit): remote-batched enumerates peer STREAM+FIN on streams 0, 1, AcceptStream, Close of either, ACK and a peer STREAM on the numbers limit-1 and limit in every order from a fresh conn; remote-batched-closed-k (k = 1, 2, 3) enumerates behind the fixed prefix 'streams 0..k-1 opened with FIN by the peer, accepted, closed, everything acknowledged' (precondition checked on the real conn: it counts k closed peer streams, else outcome prefix:peer-streams-not-closed) the operations open / open+FIN stream k, AcceptStream, Close, ACK, STREAM on limit-2, STREAM / STREAM+FIN / RESET_STREAM on limit-1, STREAM / RESET_STREAM / MAX_STREAM_DATA on limit, STREAM on limit+5. In all parts 'limit' is computed from the wire only: the conn's initial_max_streams transport parameter, then the largest MAX_STREAMS frame it actually sent; the outcomes *:limit-update-withheld count boundary probes made while finished streams would already allow a larger limit that is not on the wire. Non-trivial = the whole sequence was executed on the real conn (or ended in the expected STREAM_LIMIT_ERROR at its last step). q-unit: BFS with state dedup over open (numbers 0, 1, sent limit-1, sent limit, sent limit+5) / close / send on remoteStreamLimits with maxOpen in {0, 1, 2, 3, 8, 9, 16, 20, 100, 120}; a number at or beyond the last limit sent must be refused unless a MAX_STREAMS frame is queued and not yet written. Counters: states = histories explored completely (stateless search, no deduplication), transitions = operations applied to the real conn and checked, traces = cases executed.")
+		c.Rule("q-peer: for every configuration (conn side, stream type in focus, configured Max*RemoteStreams 0..3 and, in the remote-batched* parts, {9, 20, 120} quick / {8, 9, 16, 20, 100, 101, 120} thorough, peer initial_max_streams 0..2) every sequence of enabled operations up to the depth of the part, shortest first, each on a fresh handshaken Conn in its own synctest bubble; operations: local NewStream with cancelled / live context, peer MAX_STREAMS (any order, stale values), peer STREAM/FIN/RESET_STREAM/MAX_STREAM_DATA/STOP_SENDING on stream numbers {0,1,2,limit-1,limit,limit+5}, AcceptStream, Close of accepted/local streams, Reset+CloseRead of local streams, ACK of everything sent, and peer STREAM/FIN/RESET_STREAM/MAX_STREAM_DATA/STOP_SENDING addressed to the conn's OWN stream numbers {0,1,2} in every life-cycle state (open, half closed, completely closed and forgotten, never opened) with the conn exactly at / one below the peer's limit; a monitor reads every frame the conn sends after every step. The parts local-kinds / local-late / local-late-2 enumerate behind fixed prefixes (not counted in the depth): local-kinds behind each of {n opens, n = limit and limit-1} x {peer FIN, Close, ACK | Reset+CloseRead, peer RESET_STREAM, ACK} with the precondition that the conn has forgotten stream 0 (checked on the real conn; it held in every case or the outcome prefix:local-stream-not-forgotten is listed); local-late* behind 'limit' opens, so that the closing steps themselves are explored in every order interleaved with late frames and further opens. The remote-batched* parts use configured limits large enough that the conn may withhold a MAX_STREAMS update after peer streams finished (8 | 9: either side of 'fewer than 8 numbers left' with one stream opened; 100 | 101, 120: at and beyond the cap of the initial limit): remote-batched enumerates peer STREAM+FIN on streams 0, 1, AcceptStream, Close of either, ACK and a peer STREAM on the numbers limit-1 and limit in every order from a fresh conn; remote-batched-closed-k (k = 1, 2, 3) enumerates behind the fixed prefix 'streams 0..k-1 opened with FIN by the peer, accepted, closed, everything acknowledged' (precondition checked on the real conn: it counts k closed peer streams, else outcome prefix:peer-streams-not-closed) the operations open / open+FIN stream k, AcceptStream, Close, ACK, STREAM on limit-2, STREAM / STREAM+FIN / RESET_STREAM on limit-1, STREAM / RESET_STREAM / MAX_STREAM_DATA on limit, STREAM on limit+5. The remote-held part (configured limits 1, 2) enumerates behind the fixed prefix 'the peer opened its stream 0, the application accepted it' every order of: peer RESET_STREAM / STREAM+FIN on stream 0, the application's CloseRead / CloseWrite (bidi) / Close of it, ACK, peer STREAM / RESET_STREAM on limit-1, peer STREAM on limit, AcceptStream - so a stream ends on the wire before, between and after the application's close calls, with the conn's own FIN acknowledged or not. In all parts 'limit' is computed from the wire only: the conn's initial_max_streams transport parameter, then the largest MAX_STREAMS frame it actually sent; the outcomes *:limit-update-withheld count boundary probes made while finished streams would already allow a larger limit that is not on the wire. Non-trivial = the whole sequence was executed on the real conn (or ended in the expected STREAM_LIMIT_ERROR at its last step). q-unit: BFS with state dedup over open (numbers 0, 1, sent limit-1, sent limit, sent limit+5) / close / send on remoteStreamLimits with maxOpen in {0, 1, 2, 3, 8, 9, 16, 20, 100, 120}; a number at or beyond the last limit sent must be refused unless a MAX_STREAMS frame is queued and not yet written. Counters: states = histories explored completely (stateless search, no deduplication), transitions = operations applied to the real conn and checked, traces = cases executed.")
 		c.Assume("a peer stream counts as no longer open once its final size is known to the conn (FIN or RESET_STREAM received) and, for bidirectional streams, a packet carrying the conn's FIN or RESET_STREAM was acknowledged; this is the weakest reading of 'closed', so the simultaneous-streams bound is not over-strict")
+		c.Assume("second reading of the same bound, checked in addition (signature .../stream-not-closed-by-application): a peer stream the local application has not closed yet (no Close, or not CloseRead and - bidi - CloseWrite; a stream it never accepted included) still occupies one of the configured slots even if it is finished on the wire (e.g. reset by the peer), because the application still holds it: advertised limit minus streams that are finished on the wire AND closed by the application never exceeds the configured maximum. This is the library's documented behaviour ('We don't increase MAX_STREAMS until the user calls ReadClose or Close')")
 		c.Assume("a peer frame for a local stream the conn never opened ends the history without a verdict (the property does not say how the conn reacts); frames addressed to local streams carry no data and final size 0, so they are legal in every state of an opened stream")
 		c.Assume("no packet loss or reordering of the conn's own packets in this check (C20/C32 cover loss); late/duplicate peer frames for finished streams are in the alphabet; the advertised limit is the one in frames the scripted peer has actually read; the other stream type is fixed at 1 remote / 0 local streams")
 
